@@ -28,6 +28,12 @@ Qed.
 Theorem C04_merging_keeps_texts : forall v ts ts', merges ts ts' -> forall r, view v Closed ts = Some r ->
   view_texts v ts' = view_texts v ts.
 Proof. intros v ts ts' Hm r Hv. unfold view_texts. rewrite (merges_preserve_view v ts ts' Hm Closed r Hv), Hv. reflexivity. Qed.
+Theorem C04_merging_keeps_texts_modulo_attributes : forall v ts ts', merges (map strip_attrs ts) (map strip_attrs ts') ->
+  forall r, view v Closed ts = Some r -> view_texts v ts' = view_texts v ts.
+Proof.
+  intros v ts ts' Hm r Hv. unfold view_texts.
+  rewrite (merges_preserve_view_modulo_attrs v ts ts' Hm Closed r Hv), Hv. reflexivity.
+Qed.
 
 (* a child inserted where no comment is open contributes its text exactly at that position *)
 Theorem C04_child_text_in_place : forall v a h b ea eh eb,
@@ -101,3 +107,4 @@ Print Assumptions C04_chardata_stays_chardata_refuted.
 Print Assumptions C04_render_or_error_refuted.
 Print Assumptions C04_core_grammar_texts.
 Print Assumptions C04_core_grammar_nothing_outlook_only.
+Print Assumptions C04_merging_keeps_texts_modulo_attributes.
